@@ -29,7 +29,10 @@ P = 10007
 class Ctx:
     """Per-event numbering of indices and tensor names."""
 
-    def __init__(self, names=None):
+    def __init__(self, names=None, alias_cc=False):
+        # alias_cc: real orbital basis - the complex conjugate t-amplitude
+        # t{n}cc IS the amplitude t{n} (same tensor in every real model)
+        self.alias_cc = alias_cc
         self.idx_ids = {}      # Index -> id (1 based)
         self.idx = []          # [{n, s, p}]
         self.idx_objs = []     # the Index objects
@@ -50,6 +53,9 @@ class Ctx:
 
     def name(self, n: str) -> int:
         n = str(n)
+        if self.alias_cc and n.endswith("cc") and n[:-2] and \
+                n[:-2][-1].isdigit():
+            n = n[:-2]
         i = self.names.get(n)
         if i is None:
             i = len(self.names) + 1
